@@ -18,6 +18,7 @@ RULE = ('Each configuration is run (a) twice in one process with fresh objects, 
         ' Further modes: the same universe object, the same data handler (after it was asked for prices before an asset\'s first bar) and the same alpha model object (weights dict) reused by a second run.')
 RULE += ' Before every session case six hand-driven broker scripts (subscriptions, several orders per asset and side with library-generated ids queued while the exchange is closed, clock updates) are run four times in one process and their portfolio histories, cash and holdings compared bit for bit. One case per shard precedes the warmed-source run with 40 000 (almost all distinct) price lookups.'
 RULE += " Further modes per case: (g) a session over the same period with a later burn-in runs first from its own objects; (h) with QSTRADER_CSV_DATA_DIR unset, a session started from another market's directory and then one started from this market's directory (documented current-directory fallback) against an explicit-handler reference."
+RULE += ' (e2) every other case: a StaticUniverse object first serves a session that comes to hold a non-member, then a membership-driven session - compared with that session on a fresh universe.'
 ASSUMPTIONS = ['order identifiers (random uuids) are excluded from the comparison, as the statement says']
 
 
